@@ -16,6 +16,12 @@ fn main() {
     if args[1] == "--setup" {
         std::process::exit(checks::setup::main());
     }
+    if args[1] == "c18-free" {
+        common::panics::install_hook();
+        let code = checks::c18::free_run();
+        common::worlds::cleanup_work_dir();
+        std::process::exit(code);
+    }
     let id = args[1].to_uppercase();
     let mut tier = match std::env::var("VERIF_TIER").as_deref() {
         Ok("thorough") => Tier::Thorough,
